@@ -31,6 +31,7 @@ class Slice:
     depth: Optional[int] = None
     select: Optional[Callable[[Dict[str, Any]], bool]] = None
     env: Dict[str, str] = field(default_factory=dict)
+    env_of: Optional[Callable[[Dict[str, Any]], Dict[str, str]]] = None   # per-vector process environment
 
 
 @dataclass
@@ -110,6 +111,11 @@ def stratified(vectors: List[Dict[str, Any]], cap: int, seed: int, key: Callable
 
 def default_key(v: Dict[str, Any]) -> str:
     e = v.get("expect", {})
+    if not isinstance(e, dict):
+        if "hist" in v:
+            return "%s|%s|%s" % (v.get("kind"), json.dumps(v.get("env"), sort_keys=True),
+                                 ",".join(o.get("op", "") for o in v["hist"]))
+        return str(v.get("kind"))
     reasons = ",".join(sorted({x["reason"] for x in e.get("errors", [])})) if isinstance(e.get("errors"), list) else ""
     sch = v.get("schema", {})
     kinds = ",".join(c.get("k", "") for c in sch.get("checks", [])) if isinstance(sch.get("checks"), list) else ""
@@ -157,7 +163,23 @@ def run_slice(run: Run, sl: Slice, res) -> None:
     if len(chosen) < len(vecs) or sim:
         run.exhaustive = False
     t1 = time.time()
-    obs = pool.replay(chosen, sl.observe[0], sl.observe[1], header=header, env=sl.env)
+    if sl.env_of is None:
+        obs = pool.replay(chosen, sl.observe[0], sl.observe[1], header=header, env=sl.env)
+    else:
+        # fresh worker processes per environment: pandera reads the environment at import time
+        groups: Dict[str, List[int]] = {}
+        for i, v in enumerate(chosen):
+            groups.setdefault(json.dumps(sl.env_of(v), sort_keys=True), []).append(i)
+        obs = [None] * len(chosen)
+        for key, ids in sorted(groups.items()):
+            env = dict(sl.env)
+            env.update(json.loads(key))
+            clear = {k: "" for k in ("PANDERA_VALIDATION_ENABLED", "PANDERA_VALIDATION_DEPTH",
+                                     "PANDERA_CACHE_DATAFRAME", "PANDERA_KEEP_CACHED_DATAFRAME") if k not in env}
+            part = pool.replay([chosen[i] for i in ids], sl.observe[0], sl.observe[1], header=header,
+                               env=env, unset=list(clear), nproc=max(2, pool.NPROC // 2))
+            for i, o in zip(ids, part):
+                obs[i] = o
     known = known_ids(run.prop.id)
     for v, o in zip(chosen, obs):
         if o is None or "harness_error" in o:
